@@ -27,16 +27,28 @@ THEOREMS = [P + n for n in (
     'tracked_keys_kept', 'tracked_keys_merge', 'mem_commonKeys_iff', 'mergedRDesc_total',
     'fpVectorLen_triangular', 'scatterVec_length', 'inplace_frame',
     'toDf_rows', 'concat_aligns',
+    # round 3: rdm descriptors row by row (closes the partial), measures, index forms, descriptor rules, leaves
+    'reachable_rdesc', 'reachable_rdesc_shape', 'row_keys_init', 'row_keys_kept', 'append_drops_exactly',
+    'row_keys_full_noappend', 'reachable_rdesc_noappend', 'cexStore_wf', 'reachable_rdesc_full_false',
+    'meas_parallel_frame', 'meas_passed_on', 'meas_append_equal', 'meas_concat_equal',
+    'meas_fromPartials_last', 'meas_permute', 'meas_no_invention', 'reachable_meas_uniform',
+    'resolveIdx_lt', 'getitem_resolved', 'resolveIdx_neg', 'resolveIdx_mask', 'resolveIdx_slice_all',
+    'append_desc_rules', 'concat_desc_rules', 'odesc_kept_or_demoted', 'fromPartials_desc_rules',
+    'b2vLen_triangular', 'pairSelected_and', 'triuOffset_strict', 'selCmp_eq',
 )]
 RULE = ('one PRNG; a case is 1-3 initial RDMs objects (1-4 RDMs x 1-6 conditions, unique integer '
         'tags as values, some NaN; rdm/pattern descriptors str/int, list/array, with duplicate '
         'values and labels that are substrings of each other) and a sequence of operations whose '
         'arguments are drawn admissible from a plain-Python simulation of the session (plus a few '
-        'documented rejections); the whole store is compared after every step.  distinct = '
+        'documented rejections); round 3: dissimilarity_measure per object (equal / different / None), '
+        'float-valued descriptors, `rdms[...]` with int / negative / list / tuple / ndarray / range / slice / '
+        'boolean-mask indices, tuple values, sort_by with two keys, concat of a list / tuple / generator, '
+        'append that drops keys followed by a merge; `resolveIdx` against numpy on random (thorough: all '
+        'small) index specs; the whole store is compared after every step.  distinct = '
         'distinct (initial shapes, operation-name sequence, argument digest); non-trivial = at '
         'least one operation changed or created an object')
 OPS = ['getitem', 'iter', 'len', 'reversed', 'subset', 'subsample', 'subset_pattern', 'subsample_pattern', 'reorder',
-       'sort_alpha', 'sort_list', 'append', 'concat', 'copy', 'dict', 'from_partials', 'permute',
+       'sort_alpha', 'sort_list', 'sort_multi', 'append', 'concat', 'copy', 'dict', 'from_partials', 'permute',
        'inverse_permute', 'matrices', 'vectors', 'to_df']
 BRANCHES = ['op:' + o for o in OPS] + [
     'rejected', 'nan_values', 'dup_labels', 'list_desc', 'array_desc', 'substring_labels',
@@ -48,17 +60,28 @@ BRANCHES = ['op:' + o for o in OPS] + [
     'to_df:after_subset_pattern', 'to_df:after_reorder', 'readout:after_subsample_pattern',
     'concat:explicit_target', 'concat:explicit_target_realign', 'permute:random', 'sort:unknown_method',
     'dict:h5like', 'init:1d', 'init:3d', 'init:scalar_desc', 'init:no_pdesc', 'init:rejected_ndim',
-    'init:rejected_desc_len']
+    'init:rejected_desc_len',
+    # round 3
+    'getitem:neg_int', 'getitem:neg_in_list', 'getitem:tuple', 'getitem:ndarray', 'getitem:range',
+    'getitem:slice', 'getitem:slice_neg_step', 'getitem:mask_list', 'getitem:mask_array', 'getitem:np_int',
+    'desc:float', 'desc:float_selected', 'value:tuple', 'concat:generator', 'concat:tuple', 'concat:seq_realign',
+    'meas:set', 'meas:none', 'meas:mixed_rejected', 'meas:permuted', 'meas:from_partials_mixed',
+    'append:drops_key', 'append_then_merge', 'merge:none_fill', 'leaf:resolve_idx',
+    'to_df:float_desc', 'to_df:none_desc']
 ASSUMPTIONS = [
     'values are small integers, exactly representable in float64 and Rat',
     'admissible arguments: selection values of the descriptor\'s own kind; reorder/permute orders are '
     'permutations; concat/from_partials arguments hold compatible label sets; empty selections are '
-    'rejections (size recovery needs n >= 1)']
+    'rejections (size recovery needs n >= 1)',
+    'float descriptor values are half-integers 0.5 … 9.5 (the model sees 2x: order and equality are kept)',
+    'model parameters probed from the tree: cm (concat re-aligns in place), pk (permute_rdms passes '
+    'dissimilarity_measure on); from_partials over different measures takes the last one (as coded)']
 TRUSTED_EXTRA = ['numpy fancy indexing, scipy.spatial.distance.squareform, pandas.DataFrame construction '
                  '(exercised by the correspondence, not modelled separately)']
 
 READ_ONLY = ('iter', 'matrices', 'vectors', 'to_df', 'len', 'reversed')
-IN_PLACE = ('reorder', 'sort_alpha', 'sort_list', 'append', 'sort_unknown')
+IN_PLACE = ('reorder', 'sort_alpha', 'sort_list', 'sort_multi', 'append', 'sort_unknown')
+FKEYS = ('fnum', 'fsess')      # float-valued descriptors (half-integers 0.5 … 9.5; the model sees 2x)
 
 # ------------------------------------------------------------------ real code
 
@@ -133,7 +156,7 @@ def dump_real(r):
     try:
         d = np.asarray(r.dissimilarities)
         vecs = [[_val(x) for x in row] for row in d] if d.ndim == 2 else ['<ndim %d>' % d.ndim]
-        return {'n': int(r.n_cond), 'vecs': vecs,
+        return {'n': int(r.n_cond), 'vecs': vecs, 'meas': _lbl(r.dissimilarity_measure),
                 'odesc': sorted([[str(k), _lbl(v)] for k, v in r.descriptors.items()]),
                 'rdesc': sorted([[str(k), _col(v)] for k, v in r.rdm_descriptors.items()]),
                 'pdesc': [[str(k), _col(v)] for k, v in r.pattern_descriptors.items()]}
@@ -179,7 +202,7 @@ def make_real(o):
         return col(k, v)
     nr, nc = len(vals), ref.n_from_len(len(vals[0]))
     pd = {k: dcol(k, v, nc) for k, v in o.get('pdesc', [])}
-    return R.RDMs(vecs,
+    return R.RDMs(vecs, dissimilarity_measure=o.get('meas'),
                   descriptors={k: (np.array(v) if isinstance(v, list) else v) for k, v in o.get('odesc', [])},
                   rdm_descriptors={k: dcol(k, v, nr) for k, v in o.get('rdesc', [])},
                   pattern_descriptors=(pd if (pd or not o.get('no_pdesc_arg')) else None))
@@ -191,7 +214,28 @@ def _value_arg(op):
         return vals[0]
     if op.get('as_array'):
         return np.array(vals)
+    if op.get('as_tuple'):
+        return tuple(vals)
     return list(vals)
+
+
+def py_index(idx):
+    """the Python object handed to `rdms[...]` for an index spec"""
+    kind, form = idx['kind'], idx.get('form')
+    if kind == 'int':
+        return np.int64(idx['i']) if form == 'np' else int(idx['i'])
+    if kind == 'list':
+        l = [int(x) for x in idx['l']]
+        if form == 'tuple':
+            return tuple(l)
+        if form == 'ndarray':
+            return np.array(l, dtype=int)
+        if form == 'range':
+            return range(l[0], l[-1] + 1)
+        return l
+    if kind == 'mask':
+        return np.array(idx['l'], dtype=bool) if form == 'ndarray' else [bool(x) for x in idx['l']]
+    return slice(idx.get('start'), idx.get('stop'), idx['step'])
 
 
 def _by(op):
@@ -206,7 +250,11 @@ def apply_real(store, op):
     if name == 'concat':
         objs = [store[i] for i in op['srcs']]
         kw = {'target_pdesc': op['target']} if op.get('target') is not None else {}
-        return 'new', (R.concat(*objs, **kw) if op.get('varargs') else R.concat(objs, **kw))
+        form = op.get('argform') or ('varargs' if op.get('varargs') else 'list')
+        if form == 'varargs':
+            return 'new', R.concat(*objs, **kw)
+        arg = {'list': objs, 'tuple': tuple(objs), 'gen': (x for x in objs)}[form]
+        return 'new', R.concat(arg, **kw)
     if name == 'from_partials':
         objs = [store[i] for i in op['srcs']]
         allp = op.get('all')
@@ -214,8 +262,13 @@ def apply_real(store, op):
                                       descriptor=op['desc'])
     r = store[op['src']]
     if name == 'getitem':
+        if op.get('idx') is not None:
+            return 'new', r[py_index(op['idx'])]
         sel = op['sel']
         return 'new', r[sel[0]] if op.get('int') and len(sel) == 1 else r[list(sel)]
+    if name == 'sort_multi':
+        r.sort_by(reindex=op['reindex'], **{by: ('alpha' if how == 'alpha' else list(how)) for by, how in op['keys']})
+        return 'inplace', None
     if name == 'subset':
         return 'new', r.subset(_by(op), _value_arg(op))
     if name == 'subsample':
@@ -333,6 +386,39 @@ def concat_mutates():
     return _CM
 
 
+_PK = None
+
+
+def permute_keeps():
+    """does `permute_rdms` pass `dissimilarity_measure` on, on this tree? (model parameter `pk`)"""
+    global _PK
+    if _PK is None:
+        R, _, _ = _rsa()
+        try:
+            a = R.RDMs(np.array([[1., 2., 3.]]), dissimilarity_measure='probe')
+            with warnings.catch_warnings(), contextlib.redirect_stdout(io.StringIO()):
+                warnings.simplefilter('ignore')
+                b = R.permute_rdms(a, np.array([1, 0, 2]))
+            _PK = b.dissimilarity_measure == 'probe'
+        except Exception:  # noqa: BLE001
+            _PK = False
+        ref.PK = _PK
+    return _PK
+
+
+def _idx_impl(case):
+    """what numpy selects for the index specs of `case['idxs']` (contract of `resolveIdx`)"""
+    out = []
+    for spec in case.get('idxs', []):
+        try:
+            # (a tuple is a multi-axis index for numpy; `rdms[(i, j)]` means the list [i, j])
+            idx = dict(spec['idx'], form=None) if spec['idx'].get('form') in ('tuple', 'range') else spec['idx']
+            out.append([int(x) for x in np.atleast_1d(np.arange(spec['n'])[py_index(idx)])])
+        except Exception:  # noqa: BLE001
+            out.append(None)
+    return out
+
+
 def _make_store(case):
     """the initial real objects, or the name of the exception the constructor raised"""
     try:
@@ -359,7 +445,7 @@ def run_impl(case):
     if store is None:
         return {'init': f'constructor raised {exc0}', 'steps': [],
                 'leaf': [] if any(o.get('form') == '4d' for o in case['objs']) else _leaf_impl(case),
-                'cm': concat_mutates()}
+                'idxs': [], 'cm': concat_mutates(), 'pk': permute_keeps()}
     steps = []
     for op in case['ops']:
         exc, out = real_step(store, op)
@@ -368,21 +454,71 @@ def run_impl(case):
         else:
             steps.append({'exc': exc is not None, 'store': [dump_real(r) for r in store], 'exc_name': exc})
     return {'init': [dump_real(r) for r in _make_store(case)[0]], 'steps': steps, 'leaf': _leaf_impl(case),
-            'cm': concat_mutates()}
+            'idxs': _idx_impl(case), 'cm': concat_mutates(), 'pk': permute_keeps()}
 
 # ------------------------------------------------------------------ model side
 
 
-MODEL_KEYS = ('op', 'src', 'sel', 'by', 'vals', 'ord', 'reindex', 'other', 'srcs', 'all', 'desc', 'p', 'target')
+MODEL_KEYS = ('op', 'src', 'sel', 'by', 'vals', 'ord', 'reindex', 'other', 'srcs', 'all', 'desc', 'p', 'target',
+              'idx', 'keys')
+
+
+def _enc(x):
+    """values of a float descriptor (`FKEYS`) are sent to the model as 2x (order and equality kept)"""
+    if isinstance(x, list):
+        return [_enc(y) for y in x]
+    if isinstance(x, (int, float)) and not isinstance(x, bool):
+        return int(round(2 * x))
+    return x
+
+
+def _dec(x):
+    if isinstance(x, list):
+        return [_dec(y) for y in x]
+    return x if x is None else _lbl(x / 2)
+
+
+def _dec_cols(cols):
+    return [[k, (_dec(v) if k in FKEYS else v)] for k, v in cols]
+
+
+def _model_ops(case):
+    """the operations as the driver sees them + for every case op the model step that answers it
+    (`sort_by` with several keys is several in-place sorts, `index` reset by the last)"""
+    ops, last = [], []
+    for op in case['ops']:
+        m = {k: v for k, v in op.items() if k in MODEL_KEYS}
+        if op['op'] == 'sort_multi':
+            for n_k, (by, how) in enumerate(op['keys']):
+                fin = n_k == len(op['keys']) - 1
+                sub = {'op': 'sort_alpha' if how == 'alpha' else 'sort_list', 'src': op['src'], 'by': by,
+                       'reindex': bool(op['reindex'] and fin)}
+                if how != 'alpha':
+                    sub['vals'] = _enc(list(how)) if by in FKEYS else list(how)
+                ops.append(sub)
+            last.append(len(ops) - 1)
+            continue
+        fkey = m.get('by') if m.get('vals') is not None else m.get('desc')
+        for key in ('vals', 'all'):
+            if m.get(key) is not None and fkey in FKEYS:
+                m[key] = _enc(list(m[key]))
+        if 'idx' in m and m['idx'] is not None:
+            m['idx'] = {k: v for k, v in m['idx'].items() if k != 'form'}
+        ops.append(m)
+        last.append(len(ops) - 1)
+    return ops, last
 
 
 def model_requests(case):
-    ops = [{k: v for k, v in op.items() if k in MODEL_KEYS} for op in case['ops']]
     if any(o.get('form') == '4d' for o in case['objs']):
         return []          # not an RDM stack at all: nothing the model could be asked
+    ops, _ = _model_ops(case)
     objs = []
     for o in case['objs']:
         m = {k: copy.deepcopy(o.get(k, [])) for k in ('vecs', 'odesc', 'rdesc', 'pdesc')}
+        m['meas'] = o.get('meas')
+        for key in ('rdesc', 'pdesc'):
+            m[key] = [[k, (_enc(v) if k in FKEYS else v)] for k, v in m[key]]
         if o.get('form') == '3d':
             m['n3d'] = ref.n_from_len(len(o['vecs'][0]))
         if o.get('bad_len'):
@@ -391,21 +527,23 @@ def model_requests(case):
                     if kv[0] == o['bad_len']:
                         kv[1] = kv[1] + [kv[1][-1]]
         objs.append(m)
-    reqs = [{'op': 'c10.session', 'objs': objs, 'ops': ops, 'cm': concat_mutates()}]
+    reqs = [{'op': 'c10.session', 'objs': objs, 'ops': ops, 'cm': concat_mutates(), 'pk': permute_keeps()}]
     reqs += [{'op': 'c10.nfrom', 'len': ln} for ln in case.get('lens', [])]
+    reqs += [{'op': 'c10.resolve', 'n': sp['n'], 'idx': {k: v for k, v in sp['idx'].items() if k != 'form'}}
+             for sp in case.get('idxs', [])]
     return reqs
 
 
 def _norm_obj(o):
     if o is None:
         return None
-    return {'n': o['n'], 'vecs': o['vecs'], 'odesc': sorted(o['odesc']),
-            'rdesc': sorted(o['rdesc']), 'pdesc': o['pdesc']}
+    return {'n': o['n'], 'vecs': o['vecs'], 'meas': o.get('meas'), 'odesc': sorted(o['odesc']),
+            'rdesc': sorted(_dec_cols(o['rdesc'])), 'pdesc': _dec_cols(o['pdesc'])}
 
 
 def _sorted_rows(rows):
-    return [{'v': r['v'], 'rdm': sorted(r['rdm']), 'c1': sorted(r['c1']), 'c2': sorted(r['c2'])}
-            for r in rows]
+    return [{'v': r['v'], 'rdm': sorted(_dec_cols(r['rdm'])), 'c1': sorted(_dec_cols(r['c1'])),
+             'c2': sorted(_dec_cols(r['c2']))} for r in rows]
 
 
 def _untag(x, tm):
@@ -417,43 +555,52 @@ def _untag(x, tm):
     return tm.get(x, x)
 
 
-def _untag_obj(o, tm):
-    return None if o is None else dict(o, vecs=_untag(o['vecs'], tm))
+def _untag_obj(o, tm, meas=None):
+    if o is None:
+        return None
+    return dict(o, vecs=_untag(o['vecs'], tm), meas=meas)
 
 
 def model_result(case, answers):
     if not answers:
-        return {'init': 'constructor rejects', 'steps': [], 'leaf': []}
+        return {'init': 'constructor rejects', 'steps': [], 'leaf': [], 'idxs': []}
     a = answers[0]
+    n_len = len(case.get('lens', []))
+    leaf, idxs = answers[1:1 + n_len], answers[1 + n_len:]
     if isinstance(a, dict) and 'model_error' in a:
         if 'rejected by the constructor' in str(a['model_error']):
-            return {'init': 'constructor rejects', 'steps': [], 'leaf': answers[1:]}
+            return {'init': 'constructor rejects', 'steps': [], 'leaf': leaf, 'idxs': idxs}
         return a
     tm = tag_map(case)
-    a = {'init': [_untag_obj(x, tm) for x in a['init']],
-         'steps': [dict(st, **({'store': [_untag_obj(x, tm) for x in st['store']]} if 'store' in st else {}))
-                   for st in a['steps']]}
-    for op, st in zip(case['ops'], a['steps']):
-        if st.get('out') is None:
-            continue
-        if op['op'] in ('iter', 'reversed'):
-            st['out'] = [_untag_obj(x, tm) for x in st['out']]
-        elif op['op'] in ('matrices', 'vectors'):
-            st['out'] = _untag(st['out'], tm)
-        elif op['op'] == 'to_df':
-            st['out'] = [dict(r, v=_untag(r['v'], tm)) for r in st['out']]
-    steps = []
-    for op, st in zip(case['ops'], a['steps']):
+    _, last = _model_ops(case)
+    meas0 = [o.get('meas') for o in case['objs']]
+    # the measure of an object that a read-out refers to: the latest list seen so far
+    steps, cur_meas = [], meas0
+    msteps = a['steps']
+    first = 0
+    for op, k in zip(case['ops'], last):
+        group = msteps[first:k + 1]
+        first = k + 1
+        st = group[-1]
+        exc = any(g['exc'] for g in group)
+        if 'meas' in st:
+            cur_meas = st['meas']
         if op['op'] in READ_ONLY:
             out = st.get('out')
-            if out is not None and op['op'] in ('iter', 'reversed'):
-                out = [_norm_obj(x) for x in out]
-            if out is not None and op['op'] == 'to_df':
-                out = _sorted_rows(out)
-            steps.append({'exc': st['exc'], 'out': out})
+            if out is not None:
+                src_meas = cur_meas[op['src']] if op['src'] < len(cur_meas) else None
+                if op['op'] in ('iter', 'reversed'):
+                    out = [_norm_obj(_untag_obj(x, tm, src_meas)) for x in out]
+                elif op['op'] in ('matrices', 'vectors'):
+                    out = _untag(out, tm)
+                elif op['op'] == 'to_df':
+                    out = _sorted_rows([dict(r, v=_untag(r['v'], tm)) for r in out])
+            steps.append({'exc': exc, 'out': out})
         else:
-            steps.append({'exc': st['exc'], 'store': [_norm_obj(x) for x in st['store']]})
-    return {'init': [_norm_obj(x) for x in a['init']], 'steps': steps, 'leaf': answers[1:]}
+            store = [_norm_obj(_untag_obj(x, tm, mm)) for x, mm in zip(st['store'], st['meas'])]
+            steps.append({'exc': exc, 'store': store})
+    init = [_norm_obj(_untag_obj(x, tm, mm)) for x, mm in zip(a['init'], meas0)]
+    return {'init': init, 'steps': steps, 'leaf': leaf, 'idxs': idxs}
 
 
 def _diff(a, b, path=''):
@@ -500,6 +647,9 @@ def compare(case, impl, model):
             return f'{tag}: impl vs model {d}'
     if impl['leaf'] != model['leaf']:
         return f'leaf nFromReduced/nFromLength: impl {impl["leaf"]} model {model["leaf"]}'
+    if impl.get('idxs', []) != model.get('idxs', []):
+        bad = [(sp, x, y) for sp, x, y in zip(case.get('idxs', []), impl['idxs'], model['idxs']) if x != y]
+        return f'index forms: numpy vs resolveIdx {bad[:2]}'
     return None
 
 # ------------------------------------------------------------------ oracle (the property itself)
@@ -539,7 +689,7 @@ def to_ref(r):
                     return None, f'{nm} descriptor {k} has {len(v)} values for {ln} rows'
             except TypeError:
                 return None, f'{nm} descriptor {k} is not a column: {v!r}'
-    o = {'n': n, 'mats': mats,
+    o = {'n': n, 'mats': mats, 'meas': _lbl(r.dissimilarity_measure),
          'odesc': {str(k): _lbl(v) for k, v in r.descriptors.items()},
          'rdesc': {str(k): _col(v) for k, v in r.rdm_descriptors.items()},
          'pdesc': [[str(k), _col(v)] for k, v in r.pattern_descriptors.items()]}
@@ -557,6 +707,8 @@ def ref_eq(a, b):
             for j in range(a['n']):
                 if x[i][j] != y[i][j]:
                     return f'RDM {q} entry ({i},{j}): {x[i][j]} != {y[i][j]}'
+    if a.get('meas') != b.get('meas'):
+        return f'dissimilarity_measure {a.get("meas")!r} != {b.get("meas")!r}'
     if a['odesc'] != b['odesc']:
         return f'descriptors {a["odesc"]} != {b["odesc"]}'
     if a['rdesc'] != b['rdesc']:
@@ -569,7 +721,15 @@ def ref_eq(a, b):
 
 
 def _ref_ops(op):
-    return {k: v for k, v in op.items() if k in MODEL_KEYS}
+    """the operation as the reference semantics reads it (labels in canonical form: a float
+    descriptor value 1.5 is the label '1.5' on both sides)"""
+    m = {k: v for k, v in op.items() if k in MODEL_KEYS}
+    for key in ('vals', 'all'):
+        if m.get(key) is not None:
+            m[key] = [_lbl(x) for x in m[key]]
+    if m.get('keys') is not None:
+        m['keys'] = [[by, (how if how == 'alpha' else [_lbl(x) for x in how])] for by, how in m['keys']]
+    return m
 
 
 WHAT = {'frame': 'changed an object it was not called on',
@@ -593,11 +753,13 @@ def _fail(case, k, detail, observed, expected, kind, exc=None, role=None):
     op = case['ops'][k]
     return {'what': f"{op['op']}: {WHAT[kind]}" + (f' ({exc})' if exc and kind == 'raised' else ''),
             'detail': detail, 'step': k, 'op': _ref_ops(op), 'observed': observed, 'expected': expected,
-            'features': {'fail_op': op['op'], 'fail_kind': kind, 'fail_exc': exc, 'fail_role': role}}
+            'features': {'fail_op': op['op'], 'fail_kind': kind, 'fail_exc': exc, 'fail_role': role,
+                         'fail_idx': (op.get('idx') or {}).get('kind')}}
 
 
 def oracle(case):
     U = _rsa()[2]
+    permute_keeps()            # sets ref.PK
     for ln in case.get('lens', []):
         # "the number of conditions is recovered from the vector length for every size"
         m = 1
@@ -625,7 +787,8 @@ def oracle(case):
         o, prob = to_ref(r)
         if not prob:
             want = ref.new_obj([[_val(_num(x)) for x in row] for row in obj_vals(spec)],
-                               spec.get('odesc', []), spec.get('rdesc', []), spec.get('pdesc', []))
+                               spec.get('odesc', []), _lbl_cols(spec.get('rdesc', [])),
+                               _lbl_cols(spec.get('pdesc', [])), spec.get('meas'))
             d = ref_eq(o, want)
             if d:
                 return {'what': 'constructor: the object differs from the input it was built from',
@@ -757,6 +920,63 @@ def check_output(name, o, out):
 
 POOL = ['a', 'b', 'ab', 'c1', 'c10', 'c2', 'd', 'e']
 SUBJ = ['s1', 's2', 's10', 's3']
+FVALS = [k + 0.5 for k in range(10)]         # float descriptor values (string order = numeric order)
+MEASURES = ['euclidean', 'euclidean', 'euclidean', 'corr', None]
+
+
+def _rdesc_value(rng, key):
+    if key == 'subj':
+        return rng.choice(SUBJ)
+    if key == 'fsess':
+        return rng.choice(FVALS[:3])
+    return rng.randint(1, 3)
+
+
+def _unlbl(by, vals):
+    """labels of the simulated store back to the values handed to the library (float descriptors)"""
+    if by not in FKEYS:
+        return vals
+    return [(float(x) if isinstance(x, str) and x != 'zz' else (99 if x == 'zz' else x)) for x in vals]
+
+
+def gen_index(rng, nr):
+    """an argument of `rdms[...]` over nr RDMs (mostly admissible)"""
+    u = rng.random()
+    if u < 0.35:
+        i = rng.randrange(nr)
+        if rng.random() < 0.4:
+            i -= nr
+        return {'kind': 'int', 'i': i, 'form': 'np' if rng.random() < 0.2 else None}
+    if u < 0.7:
+        l = [rng.randrange(nr) - (nr if rng.random() < 0.3 else 0) for _ in range(rng.randint(1, 3))]
+        form = rng.choice([None, None, 'tuple', 'ndarray'])
+        if rng.random() < 0.2:
+            a = rng.randrange(nr)
+            l, form = list(range(a, rng.randint(a, nr - 1) + 1)), 'range'
+        return {'kind': 'list', 'l': l, 'form': form}
+    if u < 0.85:
+        def bound():
+            return None if rng.random() < 0.35 else rng.randint(-nr - 1, nr + 1)
+        return {'kind': 'slice', 'start': bound(), 'stop': bound(), 'step': rng.choice([1, 1, 1, 2, -1, -1, -2, 3])}
+    l = [rng.random() < 0.6 for _ in range(nr)]
+    if not any(l):
+        l[rng.randrange(nr)] = True
+    return {'kind': 'mask', 'l': l, 'form': 'ndarray' if rng.random() < 0.4 else None}
+
+
+def gen_idx_specs(rng, k):
+    out = []
+    for _ in range(k):
+        n = rng.randint(0, 5)
+        idx = gen_index(rng, max(n, 1))
+        if idx['kind'] == 'mask' and rng.random() < 0.8:
+            idx['l'] = idx['l'][:n] + [False] * (n - len(idx['l']))
+        if idx['kind'] in ('int', 'list') and rng.random() < 0.2:
+            idx = {'kind': 'int', 'i': rng.randint(-n - 2, n + 1), 'form': None}
+        if idx.get('form') == 'range':
+            idx['form'] = None
+        out.append({'n': n, 'idx': idx})
+    return out
 
 
 class _Tags:
@@ -813,9 +1033,17 @@ def gen_obj(rng, tags, n=None, nr=None, conds=None):
         pdesc.insert(0, ['grp', [rng.choice(['g1', 'g2']) for _ in range(n)]])
     if rng.random() < 0.3:
         pdesc.append(['num', rng.sample(range(10, 30), n)])
+    if rng.random() < 0.3:
+        # a float-valued pattern descriptor (half-integers; 25 % with a repeated value)
+        fl = rng.sample(FVALS, n)
+        if n >= 2 and rng.random() < 0.25:
+            fl[rng.randrange(n)] = fl[rng.randrange(n)]
+        pdesc.insert(rng.randrange(len(pdesc) + 1), ['fnum', fl])
     rdesc = [['subj', [rng.choice(SUBJ) for _ in range(nr)]]]
     if rng.random() < 0.6:
         rdesc.append(['sess', [rng.randint(1, 3) for _ in range(nr)]])
+    if rng.random() < 0.3:
+        rdesc.append(['fsess', [rng.choice(FVALS[:3]) for _ in range(nr)]])
     odesc = []
     if rng.random() < 0.7:
         odesc.append(['task', rng.choice(['t1', 't2'])])
@@ -823,7 +1051,8 @@ def gen_obj(rng, tags, n=None, nr=None, conds=None):
         odesc.append(['run', rng.randint(1, 2)])
     arr = [k for k, _ in pdesc + rdesc if rng.random() < 0.5]
     o = {'vecs': vecs, 'vals': vals, 'dtype': dtype, 'layout': layout,
-         'odesc': odesc, 'rdesc': rdesc, 'pdesc': pdesc, 'arr': arr}
+         'odesc': odesc, 'rdesc': rdesc, 'pdesc': pdesc, 'arr': arr,
+         'meas': rng.choice(MEASURES)}
     # how the constructor is called: 1-D vector, square matrices, scalar descriptors, no pattern descriptors
     if nr == 1 and rng.random() < 0.3:
         o['form'] = '1d'
@@ -838,8 +1067,12 @@ def gen_obj(rng, tags, n=None, nr=None, conds=None):
     return o
 
 
+def _lbl_cols(cols):
+    return [[k, [_lbl(x) for x in v]] for k, v in cols]
+
+
 def _ref_of(o):
-    return ref.new_obj(o['vecs'], o['odesc'], o['rdesc'], o['pdesc'])
+    return ref.new_obj(o['vecs'], o['odesc'], _lbl_cols(o['rdesc']), _lbl_cols(o['pdesc']), o.get('meas'))
 
 
 def _pick_vals(rng, col, allow_absent=True):
@@ -863,23 +1096,23 @@ def gen_op(rng, sim, weights):
     pkeys = [k for k, _ in o['pdesc']]
     rkeys = list(o['rdesc'])
     if name == 'getitem':
-        if rng.random() < 0.5:
-            return {'op': name, 'src': i, 'sel': [rng.randrange(nr)], 'int': rng.random() < 0.7}
-        return {'op': name, 'src': i, 'sel': [rng.randrange(nr) for _ in range(rng.randint(1, 3))]}
+        if rng.random() < 0.25:
+            return {'op': name, 'src': i, 'sel': [rng.randrange(nr) for _ in range(rng.randint(1, 3))]}
+        return {'op': name, 'src': i, 'idx': gen_index(rng, nr)}
     if name == 'dict':
         return {'op': name, 'src': i, 'h5like': rng.random() < 0.4}
     if name in READ_ONLY or name == 'copy':
         return {'op': name, 'src': i}
     if name in ('subset', 'subsample'):
         by = rng.choice(rkeys)
-        vals = _pick_vals(rng, o['rdesc'][by])
+        vals = _unlbl(by, _pick_vals(rng, o['rdesc'][by]))
         return {'op': name, 'src': i, 'by': by, 'vals': vals, 'scalar': rng.random() < 0.4,
-                'by_none': rng.random() < 0.7, 'as_array': rng.random() < 0.15}
+                'by_none': rng.random() < 0.7, 'as_array': rng.random() < 0.15, 'as_tuple': rng.random() < 0.12}
     if name in ('subset_pattern', 'subsample_pattern'):
         by = rng.choice(pkeys)
-        vals = _pick_vals(rng, ref.pget(o, by))
+        vals = _unlbl(by, _pick_vals(rng, ref.pget(o, by)))
         return {'op': name, 'src': i, 'by': by, 'vals': vals, 'scalar': rng.random() < 0.4,
-                'by_none': rng.random() < 0.7, 'as_array': rng.random() < 0.15}
+                'by_none': rng.random() < 0.7, 'as_array': rng.random() < 0.15, 'as_tuple': rng.random() < 0.12}
     if name == 'reorder':
         p = list(range(n))
         rng.shuffle(p)
@@ -892,9 +1125,26 @@ def gen_op(rng, sim, weights):
         rng.shuffle(m)
         if rng.random() < 0.1:
             m = m[:-1] if len(m) > 1 else m + ['zz' if isinstance(m[0], str) else 99]
-        return {'op': name, 'src': i, 'by': by, 'vals': m, 'reindex': rng.random() < 0.6}
+        return {'op': name, 'src': i, 'by': by, 'vals': _unlbl(by, m), 'reindex': rng.random() < 0.6}
+    if name == 'sort_multi':
+        ks = rng.sample(pkeys, 2) if len(pkeys) >= 2 else None
+        if ks is None:
+            return None
+        keys = []
+        for by in ks:
+            if rng.random() < 0.6:
+                keys.append([by, 'alpha'])
+            else:
+                m = ref.uniq(ref.pget(o, by))
+                rng.shuffle(m)
+                keys.append([by, _unlbl(by, m)])
+        return {'op': name, 'src': i, 'keys': keys, 'reindex': rng.random() < 0.6}
     if name == 'append':
-        cands = [j for j, r in enumerate(sim) if r['n'] == n and all(k in r['rdesc'] for k in o['rdesc'])]
+        cands = [j for j, r in enumerate(sim) if r['n'] == n and all(k in r['rdesc'] for k in o['rdesc'])
+                 and r.get('meas') == o.get('meas')]
+        more = [j for j in cands if any(k not in o['rdesc'] for k in sim[j]['rdesc'])]
+        if more and rng.random() < 0.7:
+            cands = more        # the argument has rdm descriptors the receiver lacks: they are dropped
         j = rng.choice(cands) if cands and rng.random() < 0.93 else rng.randrange(len(sim))
         return {'op': name, 'src': i, 'other': j}
     if name == 'concat':
@@ -906,8 +1156,10 @@ def gen_op(rng, sim, weights):
         for j, r in enumerate(sim):
             if r['n'] != n:
                 continue
+            if r.get('meas') != o.get('meas') and rng.random() < 0.97:
+                continue
             if (set(r['rdesc']) != set(o['rdesc']) or set(r['odesc']) != set(o['odesc'])) \
-                    and rng.random() < 0.7:
+                    and rng.random() < 0.6:
                 continue
             if t is not None:
                 try:
@@ -919,7 +1171,7 @@ def gen_op(rng, sim, weights):
         k = rng.choice([0, 1, 1, 2])
         srcs = [i] + [rng.choice(moved if moved and rng.random() < 0.6 else cands)
                       for _ in range(k)] if cands else [i]
-        op = {'op': name, 'srcs': srcs, 'varargs': rng.random() < 0.5}
+        op = {'op': name, 'srcs': srcs, 'argform': rng.choice(['varargs', 'varargs', 'list', 'list', 'tuple', 'gen'])}
         if target is not None:
             op['target'] = target
         return op
@@ -936,8 +1188,10 @@ def gen_op(rng, sim, weights):
                 continue
             if ref.has_dup(l):
                 continue
+            if r.get('meas') != o.get('meas') and rng.random() < 0.85:
+                continue
             if (set(r['rdesc']) != set(o['rdesc']) or set(r['odesc']) != set(o['odesc'])) \
-                    and rng.random() < 0.7:
+                    and rng.random() < 0.6:
                 continue
             if any(isinstance(v, list) for v in r['odesc'].values()) and r['n'] != n:
                 continue
@@ -948,10 +1202,12 @@ def gen_op(rng, sim, weights):
         allp = None
         if rng.random() < 0.3:
             allp = ref.uniq([x for j in srcs for x in ref.pget(sim[j], d)])
-            extra = [x for x in (POOL if isinstance(allp[0], str) else [77, 78, 79]) if x not in allp]
+            pool = [_lbl(x) for x in FVALS] if d in FKEYS else (POOL if isinstance(allp[0], str) else [77, 78, 79])
+            extra = [x for x in pool if x not in allp]
             if extra and rng.random() < 0.7:
                 allp.append(extra[0])
             rng.shuffle(allp)
+            allp = _unlbl(d, allp)
         return {'op': name, 'srcs': srcs, 'all': allp, 'desc': d}
     if name == 'permute':
         p = list(range(n))
@@ -969,7 +1225,7 @@ def gen_op(rng, sim, weights):
 RAISES_WHEN_INADMISSIBLE = ('subset', 'subsample', 'subset_pattern', 'subsample_pattern', 'sort_list',
                             'append', 'getitem', 'sort_unknown')
 REJECTIONS = ('getitem_oob', 'missing_key', 'append_shape', 'sort_list_missing', 'sort_unknown',
-              'concat_bad_target')
+              'concat_bad_target', 'meas_mismatch', 'meas_mismatch', 'getitem_bad_idx')
 
 
 def gen_rejection(rng, sim):
@@ -978,6 +1234,18 @@ def gen_rejection(rng, sim):
     o = sim[i]
     if kind == 'getitem_oob':
         return {'op': 'getitem', 'src': i, 'sel': [len(o['mats']) + rng.randint(0, 2)], 'int': True}
+    if kind == 'getitem_bad_idx':
+        nr = len(o['mats'])
+        return {'op': 'getitem', 'src': i, 'idx': rng.choice([
+            {'kind': 'int', 'i': -nr - 1}, {'kind': 'list', 'l': [0, nr]},
+            {'kind': 'list', 'l': [-nr - 1], 'form': 'ndarray'}])}
+    if kind == 'meas_mismatch':
+        cands = [j for j, r in enumerate(sim) if r['n'] == o['n'] and r.get('meas') != o.get('meas')
+                 and all(k in r['rdesc'] for k in o['rdesc'])]
+        if cands:
+            j = rng.choice(cands)
+            return rng.choice([{'op': 'append', 'src': i, 'other': j},
+                               {'op': 'concat', 'srcs': [i, j], 'argform': 'list', 'target': 'index'}])
     if kind == 'missing_key':
         return {'op': rng.choice(['subset', 'subset_pattern', 'subsample', 'subsample_pattern']),
                 'src': i, 'by': 'nokey', 'vals': ['a']}
@@ -1008,11 +1276,10 @@ def gen_case(rng, max_ops, weights=None, n_objs=None):
             rng.shuffle(conds)
             o = gen_obj(rng, tags, n=len(conds), conds=conds)
             o['pdesc'] = [['conds', conds]] + [kv for kv in o['pdesc'] if kv[0] not in ('conds', 'grp')]
-            o['rdesc'] = [[kk, [rng.choice(SUBJ) if kk == 'subj' else rng.randint(1, 3) for _ in o['vecs']]]
-                          for kk, _ in base['rdesc']]
+            o['rdesc'] = [[kk, [_rdesc_value(rng, kk) for _ in o['vecs']]] for kk, _ in base['rdesc']]
             o['odesc'] = [[kk, (rng.choice(['t1', 't2']) if kk == 'task' else rng.randint(1, 2))]
                           for kk, _ in base['odesc']]
-            if rng.random() < 0.3:      # heterogeneous descriptor keys
+            if rng.random() < 0.45:     # heterogeneous descriptor keys
                 if rng.random() < 0.5:
                     o['rdesc'] = o['rdesc'] + [['extra', [rng.randint(1, 9) for _ in o['vecs']]]]
                 else:
@@ -1020,13 +1287,14 @@ def gen_case(rng, max_ops, weights=None, n_objs=None):
             o['arr'] = [kk for kk, _ in o['pdesc'] + o['rdesc'] if rng.random() < 0.5]
         elif mode < 0.8:
             o = gen_obj(rng, tags)
-            o['rdesc'] = [[kk, [rng.choice(SUBJ) if kk == 'subj' else rng.randint(1, 3) for _ in o['vecs']]]
-                          for kk, _ in base['rdesc']]
+            o['rdesc'] = [[kk, [_rdesc_value(rng, kk) for _ in o['vecs']]] for kk, _ in base['rdesc']]
             o['odesc'] = [[kk, (rng.choice(['t1', 't2']) if kk == 'task' else rng.randint(1, 2))]
                           for kk, _ in base['odesc']]
             o['arr'] = [kk for kk, _ in o['pdesc'] + o['rdesc'] if rng.random() < 0.5]
         else:
             o = gen_obj(rng, tags)
+        if rng.random() < 0.85:
+            o['meas'] = base.get('meas')
         objs.append(o)
     if rng.random() < 0.015:
         bad = rng.choice(objs)
@@ -1036,6 +1304,7 @@ def gen_case(rng, max_ops, weights=None, n_objs=None):
             bad['bad_len'] = rng.choice([kv[0] for kv in bad['rdesc'] + bad['pdesc']] or ['subj'])
             bad.pop('scalar_desc', None)
         return {'objs': objs, 'ops': [], 'lens': []}
+    permute_keeps()            # sets ref.PK
     sim = [_ref_of(o) for o in objs]
     ops = []
     n_ops = rng.randint(1, max_ops)
@@ -1066,10 +1335,23 @@ def gen_case(rng, max_ops, weights=None, n_objs=None):
                        else {'op': kind, 'src': target})
             if kind == 'dict':
                 sim, _ = ref.apply(sim, {'op': 'dict', 'src': target})
+        if op['op'] == 'append' and target is not None and rng.random() < 0.5:
+            # follow an append by a merge with the appended object: the only kind of history in which a
+            # retained RDM can show another value for a descriptor key it once had (`reachable_rdesc_full_false`)
+            follow = rng.choice([
+                {'op': 'concat', 'srcs': [op['src'], op['other']], 'argform': 'list', 'target': 'index'},
+                {'op': 'concat', 'srcs': [op['other'], op['src']], 'argform': 'varargs'}])
+            try:
+                sim, _ = ref.apply(sim, _ref_ops(follow))
+                ops.append(follow)
+                if rng.random() < 0.5:
+                    ops.append({'op': 'to_df', 'src': len(sim) - 1})
+            except ref.Inadmissible:
+                pass
         if len(sim) > 14:
             break
     lens = [rng.randint(0, 60)] + [m * (m - 1) // 2 for m in (rng.randint(1, 200),)]
-    return {'objs': objs, 'ops': ops, 'lens': lens}
+    return {'objs': objs, 'ops': ops, 'lens': lens, 'idxs': gen_idx_specs(rng, 3)}
 
 
 def fixed_cases():
@@ -1129,8 +1411,87 @@ def fixed_cases():
         {'op': 'matrices', 'src': 4}]}
 
 
+def fixed_cases_r3():
+    """round 3: the rarer paths of the index forms, measures, float descriptors, key-dropping append"""
+    # the Lean witness `cexStore` / `cexOps` on real objects: append drops `extra`, concat refills it with None
+    A = {'vecs': [[1]], 'odesc': [], 'rdesc': [['subj', ['s1']]], 'pdesc': [], 'arr': [], 'meas': 'euclidean'}
+    B = {'vecs': [[2]], 'odesc': [], 'rdesc': [['subj', ['s2']], ['extra', [7]]], 'pdesc': [], 'arr': [],
+         'meas': 'euclidean'}
+    yield {'objs': [A, B], 'lens': [], 'idxs': [], 'ops': [
+        {'op': 'append', 'src': 0, 'other': 1}, {'op': 'concat', 'srcs': [0, 1], 'argform': 'gen'},
+        {'op': 'to_df', 'src': 2}, {'op': 'getitem', 'src': 2, 'idx': {'kind': 'int', 'i': -1}},
+        {'op': 'subset', 'src': 2, 'by': 'extra', 'vals': [7], 'scalar': True}]}
+    f = {'vecs': [[1, 2, 3, 4, 5, 6], [7, 8, 9, 10, 11, 12], [13, 14, None, 16, 17, 18]],
+         'vals': [[0, 2, 3, 4, 5, 6], [7, 0, 9, 10, 7, 12], [13, 14, None, 0, 17, -18]],
+         'odesc': [['task', 't1']], 'rdesc': [['subj', ['s1', 's2', 's1']], ['fsess', [0.5, 1.5, 0.5]]],
+         'pdesc': [['fnum', [2.5, 0.5, 1.5, 0.5]], ['conds', ['b', 'a', 'ab', 'c10']]], 'arr': ['fnum'],
+         'meas': 'corr'}
+    g = dict(f, vecs=[[21, 22, 23, 24, 25, 26]], vals=[[21, 0, 23, 24, 25, 26]], rdesc=[['subj', ['s3']], ['fsess', [2.5]]],
+             pdesc=[['fnum', [0.5, 1.5, 2.5, 3.5]], ['conds', ['a', 'ab', 'b', 'c10']]], arr=['fsess'], meas=None)
+    yield {'objs': [f, g], 'lens': [], 'idxs': [], 'ops': [
+        {'op': 'getitem', 'src': 0, 'idx': {'kind': 'list', 'l': [-1, 0], 'form': 'tuple'}}, {'op': 'to_df', 'src': 2},
+        {'op': 'getitem', 'src': 0, 'idx': {'kind': 'list', 'l': [2, -3], 'form': 'ndarray'}},
+        {'op': 'getitem', 'src': 0, 'idx': {'kind': 'list', 'l': [1, 2], 'form': 'range'}},
+        {'op': 'getitem', 'src': 0, 'idx': {'kind': 'int', 'i': 1, 'form': 'np'}},
+        {'op': 'subset', 'src': 0, 'by': 'fsess', 'vals': [0.5], 'scalar': True}, {'op': 'to_df', 'src': 6},
+        {'op': 'subsample', 'src': 0, 'by': 'fsess', 'vals': [1.5, 0.5, 1.5], 'as_tuple': True},
+        {'op': 'subset_pattern', 'src': 0, 'by': 'fnum', 'vals': [0.5, 2.5], 'as_tuple': True},
+        {'op': 'subsample_pattern', 'src': 0, 'by': 'fnum', 'vals': [0.5, 0.5]}, {'op': 'matrices', 'src': 9},
+        {'op': 'sort_alpha', 'src': 0, 'by': 'fnum', 'reindex': True}, {'op': 'to_df', 'src': 0},
+        {'op': 'sort_multi', 'src': 0, 'keys': [['conds', 'alpha'], ['fnum', [0.5, 2.5, 1.5]]], 'reindex': False},
+        {'op': 'append', 'src': 0, 'other': 1},                         # corr vs None: rejected
+        {'op': 'concat', 'srcs': [0, 1], 'argform': 'tuple'},           # rejected too
+        {'op': 'permute', 'src': 0, 'p': [3, 1, 0, 2]},                 # measure dropped (pk = false)
+        {'op': 'concat', 'srcs': [10, 1], 'argform': 'gen', 'target': 'conds'},
+        {'op': 'from_partials', 'srcs': [0, 1], 'all': None, 'desc': 'conds'},   # mixed measures: the last one wins
+        {'op': 'from_partials', 'srcs': [1], 'all': [3.5, 0.5, 2.5, 1.5, 4.5], 'desc': 'fnum'},
+        {'op': 'to_df', 'src': 13}]}
+    h = dict(g, meas='corr', vecs=[[31, 32, 33, 34, 35, 36]], vals=[[31, 32, 0, 34, 35, 36]])
+    yield {'objs': [f, h], 'lens': [], 'idxs': [], 'ops': [
+        # a tuple / a generator of objects whose later member must be re-aligned (conds in another order)
+        {'op': 'concat', 'srcs': [0, 1], 'argform': 'tuple', 'target': 'conds'}, {'op': 'to_df', 'src': 2},
+        {'op': 'concat', 'srcs': [1, 0, 1], 'argform': 'gen', 'target': 'conds'}, {'op': 'matrices', 'src': 3},
+        {'op': 'getitem', 'src': 3, 'idx': {'kind': 'list', 'l': [3, -4, 1], 'form': 'ndarray'}}]}
+    yield {'objs': [f], 'lens': [], 'idxs': [], 'ops': [
+        {'op': 'getitem', 'src': 0, 'idx': {'kind': 'int', 'i': -4}},          # out of range: rejected
+        {'op': 'getitem', 'src': 0, 'idx': {'kind': 'list', 'l': [0, 3]}},     # rejected
+        {'op': 'getitem', 'src': 0, 'idx': {'kind': 'slice', 'start': 3, 'stop': None, 'step': 1}}]}   # empty
+    yield {'objs': [f], 'lens': [], 'idxs': [], 'ops': [
+        {'op': 'getitem', 'src': 0, 'idx': {'kind': 'slice', 'start': None, 'stop': None, 'step': -1}},
+        {'op': 'to_df', 'src': 1}]}
+    yield {'objs': [f], 'lens': [], 'idxs': [], 'ops': [
+        {'op': 'getitem', 'src': 0, 'idx': {'kind': 'slice', 'start': 1, 'stop': None, 'step': 1}}]}
+    yield {'objs': [f], 'lens': [], 'idxs': [], 'ops': [
+        {'op': 'getitem', 'src': 0, 'idx': {'kind': 'mask', 'l': [True, False, True]}}, {'op': 'iter', 'src': 1}]}
+    yield {'objs': [f], 'lens': [], 'idxs': [], 'ops': [
+        {'op': 'getitem', 'src': 0, 'idx': {'kind': 'mask', 'l': [True, True, True], 'form': 'ndarray'}}]}
+
+
+def exhaustive_index_specs():
+    """every slice with bounds in -n-2 … n+2 / None and step ±1, ±2, ±3, every int, every mask, for n ≤ 4:
+    `resolveIdx` against numpy"""
+    specs = []
+    for n in range(0, 5):
+        bounds = [None] + list(range(-n - 2, n + 3))
+        for a in bounds:
+            for z in bounds:
+                for st in (1, 2, 3, -1, -2, -3):
+                    specs.append({'n': n, 'idx': {'kind': 'slice', 'start': a, 'stop': z, 'step': st}})
+        for i in range(-n - 2, n + 2):
+            specs.append({'n': n, 'idx': {'kind': 'int', 'i': i}})
+            specs.append({'n': n, 'idx': {'kind': 'list', 'l': [i, 0] if n else [i]}})
+        for bits in range(1 << n):
+            specs.append({'n': n, 'idx': {'kind': 'mask', 'l': [bool(bits >> k & 1) for k in range(n)]}})
+        specs.append({'n': n, 'idx': {'kind': 'mask', 'l': [True] * (n + 1)}})
+    return specs
+
+
 def generate(rng, tier):
     yield from fixed_cases()
+    yield from fixed_cases_r3()
+    if tier != 'quick':
+        a = next(fixed_cases())['objs'][0]
+        yield {'objs': [a], 'ops': [], 'lens': [], 'idxs': exhaustive_index_specs()}
     if tier == 'quick':
         for _ in range(1000):
             yield gen_case(rng, 10)
@@ -1230,6 +1591,34 @@ def features(case, impl):
             br.add('by_none')
         if op.get('scalar') and len(op.get('vals', [])) == 1:
             br.add('scalar_value')
+        if op.get('as_tuple') and not (op.get('scalar') and len(op.get('vals', [])) == 1) \
+                and not op.get('as_array') and op['op'] in ('subset', 'subsample', 'subset_pattern',
+                                                            'subsample_pattern'):
+            br.add('value:tuple')
+        if op['op'] == 'concat' and op.get('argform') in ('gen', 'tuple'):
+            br.add('concat:generator' if op['argform'] == 'gen' else 'concat:tuple')
+        if op.get('by') in FKEYS and op['op'] in ('subset', 'subsample', 'subset_pattern', 'subsample_pattern',
+                                                  'sort_alpha', 'sort_list'):
+            br.add('desc:float_selected')
+        idx = op.get('idx') if op['op'] == 'getitem' else None
+        if idx:
+            kind, form = idx['kind'], idx.get('form')
+            if kind == 'int':
+                br.add('getitem:neg_int' if idx['i'] < 0 else 'getitem:int')
+                if form == 'np':
+                    br.add('getitem:np_int')
+            elif kind == 'list':
+                if any(x < 0 for x in idx['l']):
+                    br.add('getitem:neg_in_list')
+                br.add('getitem:' + (form or 'list'))
+            elif kind == 'slice':
+                br.add('getitem:slice')
+                if idx['step'] < 0:
+                    br.add('getitem:slice_neg_step')
+            elif kind == 'mask':
+                br.add('getitem:mask_array' if form == 'ndarray' else 'getitem:mask_list')
+    if case.get('idxs'):
+        br.add('leaf:resolve_idx')
     n_init = len(case['objs'])
     derived, made_by = set(), {}
     n_store = n_init
@@ -1291,6 +1680,9 @@ def features(case, impl):
                 br.add('substring_labels')
         if len(o['vecs'][0]) == 0:
             br.add('n_cond_1')
+        if any(k in FKEYS for k, _ in o['pdesc'] + o['rdesc']):
+            br.add('desc:float')
+        br.add('meas:none' if o.get('meas') is None else 'meas:set')
     if case.get('lens'):
         br.add('leaf:nfrom')
     if impl is not None and isinstance(impl, dict) and 'steps' in impl:
@@ -1298,16 +1690,44 @@ def features(case, impl):
             br.add('rejected')
         # semantic branches from a simulation of the session
         try:
+            permute_keeps()
             sim = [_ref_of(o) for o in case['objs']]
+            dropped = {}            # store position -> rdm-descriptor keys an append dropped there
             for op in case['ops']:
                 if op['op'] in READ_ONLY:
+                    if op['op'] == 'to_df' and 0 <= op['src'] < len(sim):
+                        so = sim[op['src']]
+                        if any(k in FKEYS for k in list(so['rdesc']) + [kk for kk, _ in so['pdesc']]):
+                            br.add('to_df:float_desc')
+                        if any(x is None for v in so['rdesc'].values() for x in v):
+                            br.add('to_df:none_desc')
                     continue
                 try:
                     new, maybe = ref.apply(sim, _ref_ops(op))
-                except ref.Inadmissible:
+                except ref.Inadmissible as exc:
+                    if 'different dissimilarity measures' in str(exc):
+                        br.add('meas:mixed_rejected')
                     continue
+                if op['op'] == 'append':
+                    lost = [k for k in sim[op['other']]['rdesc'] if k not in sim[op['src']]['rdesc']]
+                    if lost:
+                        br.add('append:drops_key')
+                        dropped.setdefault(op['src'], set()).update(lost)
+                if op['op'] in ('concat', 'from_partials'):
+                    for j in op['srcs']:
+                        if any(k in sim[j2]['rdesc'] or k in sim[j2]['odesc']
+                               for k in dropped.get(j, ()) for j2 in op['srcs']):
+                            br.add('append_then_merge')
+                    if any(x is None for v in new[-1]['rdesc'].values() for x in v):
+                        br.add('merge:none_fill')
+                    if op['op'] == 'from_partials' and len({sim[j].get('meas') for j in op['srcs']}) > 1:
+                        br.add('meas:from_partials_mixed')
+                if op['op'] in ('permute', 'inverse_permute') and sim[op['src']].get('meas') is not None:
+                    br.add('meas:permuted')
                 if op['op'] == 'concat' and maybe:
                     br.add('concat:realign')
+                    if op.get('argform') in ('tuple', 'gen'):
+                        br.add('concat:seq_realign')
                     if op.get('target') is not None:
                         br.add('concat:explicit_target_realign')
                 if op['op'] in ('concat', 'from_partials') and len(
